@@ -28,4 +28,33 @@ def run(chk):
         cases.append(c)
     for c in cases[300:304]:
         chk.sample(case_line(c)[:300])
+    # a writer that accepts only a few bytes per call (short writes): nothing may be lost
+    for c in list(cases[::7]):
+        d = dict(c)
+        d["sw"] = rng.choice([1, 2, 5])
+        cases.append(d)
     lines, impl, _ = evaluate(chk, cases, "K-bytes", spec=True)
+    # the real binary on slices larger than main's 64 KiB BufWriter (its inner stdout is a LineWriter that
+    # answers large writes containing LF with short counts); expected = plain python slicing
+    from common import build_tuc, run_cli
+    from cases import resolve_py
+    tuc = build_tuc(release=False)
+    cli = []
+    for size in (70000, 140000):
+        for _ in range(6 if chk.tier == "quick" else 40):
+            data = bytearray(rng.choice([0, 97, 255]) for _ in range(size))
+            for _ in range(rng.randint(1, 5)):
+                data[rng.randrange(size)] = 10
+            data = bytes(data)
+            for b, (l, r) in (("1:", (1, None)), ("2:", (2, None)), (f"-{size - 3}:", (-(size - 3), None)), (":-2", (None, -2))):
+                cli.append((["-b", b], data, (l, r)))
+    res = run_cli(tuc, [(a, d) for a, d, _ in cli])
+    for (argv, data, (l, r)), (st, out) in zip(cli, res):
+        chk.evaluations += 1
+        chk.count("cli:large-slice")
+        chk.nontrivial_add(("cli", argv[1], len(data), data[:40]))
+        lo, hi = resolve_py(l, r, len(data))
+        if st != "0" or out != data[lo - 1:hi]:
+            chk.report_oracle("CLI: a large byte slice is not reproduced exactly",
+                              {"argv": argv, "stdin_bytes": len(data), "stdin_sha": __import__("hashlib").sha1(data).hexdigest(), "exit": st, "stdout_bytes": len(out),
+                               "expected_bytes": hi - lo + 1, "first_difference_at": next((i for i, (x, y) in enumerate(zip(out, data[lo - 1:hi])) if x != y), min(len(out), hi - lo + 1))})
